@@ -782,6 +782,22 @@ func (e *enumerator) walkFn(fn *ssa.Function, ev []string, depth int, k func(ev 
 					e.w.inlineEnv = e.w.inlineEnv[:depthEnv-1]
 					return
 				}
+				// a callee that is not expanded may still never return under the
+				// current abstract input (it panics on every feasible path): the
+				// caller's path ends here
+				if cal != nil && cal != fn && depth < 2 && e.w.InModule(cal) && cal.Blocks != nil && len(cal.Params) == len(t.Common().Args) && hasPanic(cal) {
+					env := map[*ssa.Parameter]string{}
+					for j, p := range cal.Params {
+						env[p] = e.w.Canon(e.resolve(t.Common().Args[j], st))
+					}
+					e.w.inlineEnv = append(e.w.inlineEnv, env)
+					returns := e.w.canReturn(cal, e.eval, depth+1)
+					e.w.inlineEnv = e.w.inlineEnv[:len(e.w.inlineEnv)-1]
+					if !returns {
+						k(ev, nil, "panic")
+						return
+					}
+				}
 			case *ssa.Return:
 				k(ev, t, e.termOf(t, st, fn))
 				return
@@ -1227,7 +1243,12 @@ func (w *World) returnedValues(fn *ssa.Function, idx int, eval func(ssa.Value) (
 	var out []ssa.Value
 	complete := true
 	budget := 512
+	w.lastRetBlocks = map[ssa.Value]*ssa.BasicBlock{}
+	var curRet *ssa.BasicBlock
 	add := func(v ssa.Value) {
+		if _, ok := w.lastRetBlocks[v]; !ok {
+			w.lastRetBlocks[v] = curRet
+		}
 		for _, o := range out {
 			if o == v {
 				return
@@ -1285,6 +1306,7 @@ func (w *World) returnedValues(fn *ssa.Function, idx int, eval func(ssa.Value) (
 		switch t := lastInstr(b).(type) {
 		case *ssa.Return:
 			if idx < len(t.Results) {
+				curRet = b
 				add(w.resolveValue(retResult(t, idx), st, eval, depth))
 			}
 		case *ssa.If:
@@ -1309,6 +1331,54 @@ func (w *World) returnedValues(fn *ssa.Function, idx int, eval func(ssa.Value) (
 // nilnessOnPath: +1 v is certainly non-nil on this path, -1 certainly nil, 0 unknown.
 func (w *World) nilnessOnPath(v ssa.Value, st *pathState, eval func(ssa.Value) (bool, bool), depth int) int {
 	rv := w.resolveValue(v, st, eval, depth)
+	// a helper with several feasible returns: decided when they agree on nil-ness
+	if rv == v || rv == stripConv(v) {
+		var call *ssa.Call
+		idx := 0
+		switch y := stripConv(v).(type) {
+		case *ssa.Call:
+			call = y
+		case *ssa.Extract:
+			call, _ = y.Tuple.(*ssa.Call)
+			idx = y.Index
+		}
+		if call != nil {
+			if cal := call.Common().StaticCallee(); cal != nil && w.InModule(cal) && cal.Blocks != nil && depth <= 2 && len(cal.Params) == len(call.Common().Args) {
+				env := map[*ssa.Parameter]string{}
+				for j, p := range cal.Params {
+					env[p] = w.Canon(w.resolveValue(call.Common().Args[j], st, eval, depth+1))
+				}
+				w.inlineEnv = append(w.inlineEnv, env)
+				vals, complete := w.returnedValues(cal, idx, eval, depth+1)
+				blocks := w.lastRetBlocks
+				w.inlineEnv = w.inlineEnv[:len(w.inlineEnv)-1]
+				if complete && len(vals) > 0 {
+					all := 0
+					for i, x := range vals {
+						n := 0
+						if c, ok := x.(*ssa.Const); ok && c.IsNil() {
+							n = -1
+						} else if b := blocks[x]; b != nil {
+							switch w.valueErrState(x, b, 0) {
+							case triNonNil:
+								n = 1
+							case triNil:
+								n = -1
+							}
+						}
+						if n == 0 || (i > 0 && n != all) {
+							all = 0
+							break
+						}
+						all = n
+					}
+					if all != 0 {
+						return all
+					}
+				}
+			}
+		}
+	}
 	switch x := rv.(type) {
 	case *ssa.Const:
 		if x.IsNil() {
@@ -1322,5 +1392,126 @@ func (w *World) nilnessOnPath(v ssa.Value, st *pathState, eval func(ssa.Value) (
 			return 1
 		}
 	}
+	if in, ok := rv.(ssa.Instruction); ok && in.Block() != nil && isErrorType(rv.Type()) {
+		switch w.valueErrState(rv, in.Block(), 0) {
+		case triNonNil:
+			return 1
+		case triNil:
+			return -1
+		}
+	}
 	return 0
+}
+
+// valueIs: v's canonical form satisfies pred, or v is the result of a module
+// function all of whose feasible returns satisfy it (a value computed in a helper).
+func (w *World) valueIs(v ssa.Value, pred func(string) bool) bool {
+	if pred(w.Canon(v)) || pred(w.CanonI(v)) {
+		return true
+	}
+	var call *ssa.Call
+	idx := 0
+	switch y := stripConv(v).(type) {
+	case *ssa.Call:
+		call = y
+	case *ssa.Extract:
+		call, _ = y.Tuple.(*ssa.Call)
+		idx = y.Index
+	}
+	if call == nil {
+		return false
+	}
+	cal := call.Common().StaticCallee()
+	if cal == nil || !w.InModule(cal) || cal.Blocks == nil {
+		return false
+	}
+	vals, complete := w.returnedValues(cal, idx, func(ssa.Value) (bool, bool) { return false, false }, 1)
+	if !complete || len(vals) == 0 {
+		return false
+	}
+	for _, x := range vals {
+		if !pred(w.Canon(x)) && !pred(w.CanonI(x)) {
+			return false
+		}
+	}
+	return true
+}
+
+func hasPanic(fn *ssa.Function) bool {
+	for _, b := range fn.Blocks {
+		if _, ok := lastInstr(b).(*ssa.Panic); ok {
+			return true
+		}
+	}
+	return false
+}
+
+// canReturn: some path of fn that is feasible under eval reaches a return.
+func (w *World) canReturn(fn *ssa.Function, eval func(ssa.Value) (bool, bool), depth int) bool {
+	st := &pathState{onPath: map[*ssa.BasicBlock]int{}, phi: map[*ssa.Phi]ssa.Value{}}
+	budget := 2000
+	found := false
+	var walk func(b, pred *ssa.BasicBlock)
+	walk = func(b, pred *ssa.BasicBlock) {
+		budget--
+		if found || budget < 0 {
+			if budget < 0 {
+				found = true // undecided: assume it can return
+			}
+			return
+		}
+		if st.onPath[b] >= 2 {
+			return
+		}
+		st.onPath[b]++
+		defer func() { st.onPath[b]-- }()
+		idx := -1
+		for i, p := range b.Preds {
+			if p == pred {
+				idx = i
+			}
+		}
+		type sv struct {
+			p *ssa.Phi
+			v ssa.Value
+			h bool
+		}
+		var saved []sv
+		for _, in := range b.Instrs {
+			ph, ok := in.(*ssa.Phi)
+			if !ok {
+				break
+			}
+			old, had := st.phi[ph]
+			saved = append(saved, sv{ph, old, had})
+			if idx >= 0 {
+				st.phi[ph] = ph.Edges[idx]
+			}
+		}
+		defer func() {
+			for _, x := range saved {
+				if x.h {
+					st.phi[x.p] = x.v
+				} else {
+					delete(st.phi, x.p)
+				}
+			}
+		}()
+		switch t := lastInstr(b).(type) {
+		case *ssa.Return:
+			found = true
+		case *ssa.If:
+			v, ok := w.evalBool(t.Cond, st, eval, depth)
+			if !ok || v {
+				walk(b.Succs[0], b)
+			}
+			if !ok || !v {
+				walk(b.Succs[1], b)
+			}
+		case *ssa.Jump:
+			walk(b.Succs[0], b)
+		}
+	}
+	walk(fn.Blocks[0], nil)
+	return found
 }
